@@ -155,14 +155,16 @@ func norm(nodes []*html.Node, mode int, t tol) []*hx.N {
 		if !has {
 			return
 		}
-		s := pending.String()
+		// the HTML input stream turns CR LF and CR into LF; a CR written as &#13; survives as a
+		// character. Neither is a visible difference.
+		s := strings.ReplaceAll(strings.ReplaceAll(pending.String(), "\r\n", "\n"), "\r", "\n")
 		pending.Reset()
 		has = false
 		switch mode {
 		case mCollapse:
 			s = strings.Join(strings.Fields(s), " ")
 		case mCode:
-			s = strings.ReplaceAll(strings.ReplaceAll(s, "\r\n", " "), "\n", " ")
+			s = strings.ReplaceAll(s, "\n", " ")
 		}
 		if s == "" {
 			return
@@ -213,6 +215,9 @@ func norm(nodes []*html.Node, mode int, t tol) []*hx.N {
 				}
 			}
 			e.Kids = norm(kids, sub, t)
+			if n.Data == "tbody" && len(e.Kids) == 0 {
+				continue // a table without body rows: an empty <tbody> is as good as none
+			}
 			out = append(out, e)
 		}
 	}
